@@ -2197,32 +2197,38 @@ def parse_immediate(imm, line):
         raise AssemblerError('empty immediate value', line)
 
     head = imm[0].lower()
-    if head == '%position':
-        if imm[1] == '(':
-            _, _, reference, *imm, _ = imm
+    if head in ['%position', '%offset', '%hi', '%lo'] and len(imm) < 2:
+        raise AssemblerError('modifier {} requires an argument'.format(head), line)
+
+    try:
+        if head == '%position':
+            if imm[1] == '(':
+                _, _, reference, *imm, _ = imm
+            else:
+                _, reference, *imm = imm
+            return Position(reference, Arithmetic(' '.join(imm)))
+        elif head == '%offset':
+            if imm[1] == '(':
+                _, _, reference, _ = imm
+            else:
+                _, reference = imm
+            return Offset(reference)
+        elif head == '%hi':
+            if imm[1] == '(':
+                _, _, *imm, _ = imm
+            else:
+                _, *imm = imm
+            return Hi(parse_immediate(imm, line))
+        elif head == '%lo':
+            if imm[1] == '(':
+                _, _, *imm, _ = imm
+            else:
+                _, *imm = imm
+            return Lo(parse_immediate(imm, line))
         else:
-            _, reference, *imm = imm
-        return Position(reference, Arithmetic(' '.join(imm)))
-    elif head == '%offset':
-        if imm[1] == '(':
-            _, _, reference, _ = imm
-        else:
-            _, reference = imm
-        return Offset(reference)
-    elif head == '%hi':
-        if imm[1] == '(':
-            _, _, *imm, _ = imm
-        else:
-            _, *imm = imm
-        return Hi(parse_immediate(imm, line))
-    elif head == '%lo':
-        if imm[1] == '(':
-            _, _, *imm, _ = imm
-        else:
-            _, *imm = imm
-        return Lo(parse_immediate(imm, line))
-    else:
-        return Arithmetic(' '.join(imm))
+            return Arithmetic(' '.join(imm))
+    except ValueError:
+        raise AssemblerError('invalid syntax for modifier {}'.format(head), line)
 
 
 def parse_item(line_tokens):
